@@ -13,6 +13,7 @@ import (
 	"reflect"
 	"sort"
 	"sync"
+	"time"
 
 	"github.com/Azbesciak/RealDecisionMaker/lib/logic/preference-func/electreIII"
 	"github.com/Azbesciak/RealDecisionMaker/lib/model"
@@ -531,7 +532,27 @@ func boolOpt(c J, k string) bool {
 	return b
 }
 
+// a decision that does not come back (endless loop in the code under test) must not hang the run: it is
+// recorded as unanswered (status 0) and left behind; after a few of them the remaining cases are not started
+var stuck int
+
+const maxStuck = 4
+
+func withWatchdog(sec float64, f func() decideOut) (decideOut, bool) {
+	ch := make(chan decideOut, 1)
+	go func() { ch <- f() }()
+	select {
+	case o := <-ch:
+		return o, true
+	case <-time.After(time.Duration(sec * float64(time.Second))):
+		return decideOut{status: 0, body: J{"error": "no answer within the watchdog time"}, extra: J{}}, false
+	}
+}
+
 func runDecideCase(c J, ow *obsWriter) {
+	if stuck >= maxStuck {
+		return
+	}
 	var reqBytes []byte
 	var reqTree interface{}
 	if raw, ok := c["rawBody"].(string); ok {
@@ -551,8 +572,18 @@ func runDecideCase(c J, ow *obsWriter) {
 		installHook()
 	}
 	p := &projector{unit: unitOf(c), mode: str(c, "num", "exact")}
-	o := decideOnce(reqBytes, via, hook, boolOpt(c, "probe"), !boolOpt(c, "digestOnly"), methodOf(reqTree))
-	obs := J{"case": c, "status": o.status, "altOrder": altOrder(reqTree)}
+	wd := 25.0
+	if t, ok := c["timeoutSec"].(float64); ok {
+		wd = t
+	}
+	o, answered := withWatchdog(wd, func() decideOut {
+		return decideOnce(reqBytes, via, hook, boolOpt(c, "probe"), !boolOpt(c, "digestOnly"), methodOf(reqTree))
+	})
+	if !answered {
+		stuck++
+		curRec = nil
+	}
+	obs := J{"case": c, "status": o.status, "altOrder": altOrder(reqTree), "answered": answered}
 	if boolOpt(c, "noResp") {
 		obs["resp"] = J{}
 	} else {
